@@ -2352,10 +2352,11 @@ class Head(Expr):
             if len({_rows_root(e)._name for e in _row_operands(self.frame)}) > 1:
                 # operands with different rows are aligned by the operation
                 return
+            rows = {e._name for e in _row_operands(self.frame)}
             operands = [
                 (
                     Head(op, self.n, self.operand("npartitions"))
-                    if isinstance(op, Expr) and not self.frame._broadcast_dep(op)
+                    if isinstance(op, Expr) and op._name in rows
                     else op
                 )
                 for op in self.frame.operands
@@ -2472,10 +2473,11 @@ class Tail(Expr):
             if len({_rows_root(e)._name for e in _row_operands(self.frame)}) > 1:
                 # operands with different rows are aligned by the operation
                 return
+            rows = {e._name for e in _row_operands(self.frame)}
             operands = [
                 (
                     Tail(op, self.n)
-                    if isinstance(op, Expr) and not self.frame._broadcast_dep(op)
+                    if isinstance(op, Expr) and op._name in rows
                     else op
                 )
                 for op in self.frame.operands
@@ -3920,7 +3922,15 @@ def _row_operands(expr):
     broadcast = getattr(
         expr, "_broadcast_dep", lambda dep: dep.npartitions == 1 and dep.ndim < expr.ndim
     )
-    return [dep for dep in expr.dependencies() if not broadcast(dep)]
+    deps = expr.dependencies()
+    rows = [dep for dep in deps if not broadcast(dep)]
+    if not rows:
+        # on a single partition every operand of lower dimensionality looks like
+        # a broadcast one (df.b.to_frame() on one partition): the operands of
+        # the highest dimensionality carry the rows
+        top = max((dep.ndim for dep in deps), default=0)
+        rows = [dep for dep in deps if dep.ndim == top and top > 0]
+    return rows
 
 
 def _rows_root(expr):
